@@ -11,9 +11,18 @@ import (
 	"gonum.org/v1/gonum/lapack/lapack64"
 )
 
-// genWrap: every lapack64 wrapper of a routine in scope must hand its operands
-// to the implementation exactly as documented: the result of the wrapper call
-// is compared bit for bit with the direct call on identical copies.
+// genWrap: every lapack64 wrapper of a routine in scope, called with every
+// legal value of each of its flag arguments (every Transpose that the
+// documentation accepts including ConjTrans, both Uplo, both Diag, both Side,
+// every norm, forward/backward) on non-symmetric inputs (DL != DU for
+// tridiagonal matrices). The oracle is the documented equation of the wrapper
+// (residual of op(A)*X = B, reconstruction of the factorization, exact norm,
+// exact permutation); in addition the result is compared bit for bit with the
+// direct call of the Implementation method wherever the wrapper is a plain
+// forwarder (a wrapper may transform its arguments first, as Gtsv does, so the
+// bitwise comparison alone is not an oracle).
+
+var allTrans = []blas.Transpose{blas.NoTrans, blas.Trans, blas.ConjTrans}
 
 func sameBits(ck *checker, what string, a, b []float64) {
 	if i, ok := vlib.Same64(a, b); !ok {
@@ -21,289 +30,456 @@ func sameBits(ck *checker, what string, a, b []float64) {
 	}
 }
 
+// unplace reads an r x c matrix with leading dimension ld.
+func unplace(d []float64, r, c, ld int) M {
+	m := newM(r, c)
+	for i := 0; i < r; i++ {
+		for j := 0; j < c; j++ {
+			m.a[i*c+j] = d[i*ld+j]
+		}
+	}
+	return m
+}
+
+func general(d []float64, r, c, s int) blas64.General {
+	return blas64.General{Rows: r, Cols: c, Stride: s, Data: d}
+}
+
+func invResid(ck *checker, name string, a, inv M) {
+	n := a.r
+	if hasNaN(inv) {
+		ck.failf("%s: NaN in inverse", name)
+		return
+	}
+	res := norm1(sub(mul(a, inv), eye(n)))
+	ck.ratio(name+" |A*inv-I|/(n eps |A||inv|)", res/(float64(n)*eps*norm1(a)*norm1(inv)))
+}
+
 func genWrap(g *vlib.G) {
-	for _, n := range []int{1, 4, 7} {
+	for _, n := range []int{1, 2, 4, 7} {
 		for _, pad := range []int{0, 3} {
 			n, pad := n, pad
-			g.Case(fmt.Sprintf("lapack64 n=%d ld+%d", n, pad), func(t *vlib.T) {
+			ld := n + pad
+			nrhs := 2
+			ldb := nrhs + pad
+			dd := genDD(0)(n, n) // non-symmetric, diagonally dominant
+			spd := genSPD(0)(n)
+			xt := xTrue(n, nrhs)
+			gen := func(a M) []float64 { return place(a, ld, nil).d }
+			rhs := func(op M) (M, []float64) {
+				b := mul(op, xt)
+				return b, place(b, ldb, nil).d
+			}
+
+			// ---- symmetric positive definite: Potrf, Potrs, Potri, Pocon, Pstrf, Lansy
+			g.Case(fmt.Sprintf("lapack64 spd n=%d ld+%d", n, pad), func(t *vlib.T) {
 				ck := &checker{t: t}
 				t.Nontrivial()
-				ld := n + pad
-				nrhs := 2
-				ldb := nrhs + pad
-				gen := func(a M) []float64 { return place(a, ld, nil).d }
-				dd := genDD(0)(n, n)
-				spd := genSPD(0)(n)
-				b := mul(dd, xTrue(n, nrhs))
-				bd := func() []float64 { return place(b, ldb, nil).d }
-				general := func(d []float64, r, c, s int) blas64.General {
-					return blas64.General{Rows: r, Cols: c, Stride: s, Data: d}
-				}
 				for _, uplo := range uplos {
-					// Potrf / Potrs / Potri / Pocon / Pstrf
-					a1, a2 := gen(spd), gen(spd)
-					tr, ok1 := lapack64.Potrf(blas64.Symmetric{N: n, Stride: ld, Data: a1, Uplo: uplo})
-					ok2 := impl.Dpotrf(uplo, n, a2, ld)
-					sameBits(ck, "Potrf", a1, a2)
-					if ok1 != ok2 || tr.Uplo != uplo || tr.N != n || tr.Stride != ld || tr.Diag != blas.NonUnit || &tr.Data[0] != &a1[0] {
-						ck.failf("Potrf: returned triangular %+v ok=%v", tr.Uplo, ok1)
+					ck.ctx = "uplo=" + uploName(uplo)
+					a1, a2 := place(spd, ld, keepUplo(uplo)), place(spd, ld, keepUplo(uplo))
+					tr, ok1 := lapack64.Potrf(blas64.Symmetric{N: n, Stride: ld, Data: a1.d, Uplo: uplo})
+					ok2 := impl.Dpotrf(uplo, n, a2.d, ld)
+					sameBits(ck, "Potrf", a1.d, a2.d)
+					if ok1 != ok2 || tr.Uplo != uplo || tr.N != n || tr.Stride != ld || tr.Diag != blas.NonUnit || &tr.Data[0] != &a1.d[0] {
+						ck.failf("Potrf: returned triangular uplo=%v n=%d stride=%d diag=%v ok=%v", tr.Uplo, tr.N, tr.Stride, tr.Diag, ok1)
 					}
-					b1, b2 := bd(), bd()
+					cholOracle(ck, "Potrf", uplo, spd, a1.getRef(), ok1, sfam{name: "spd", pd: true})
+					b, b1 := rhs(spd)
 					lapack64.Potrs(tr, general(b1, n, nrhs, ldb))
-					impl.Dpotrs(uplo, n, nrhs, a2, ld, b2, ldb)
-					sameBits(ck, "Potrs", b1, b2)
-					w1, w2 := make([]float64, 3*n), make([]float64, 3*n)
-					c1 := lapack64.Pocon(blas64.Symmetric{N: n, Stride: ld, Data: a1, Uplo: uplo}, 10, w1, make([]int, n))
-					c2 := impl.Dpocon(uplo, n, a2, ld, 10, w2, make([]int, n))
-					if c1 != c2 {
-						ck.failf("Pocon: %v vs %v", c1, c2)
+					solveResid(ck, "Potrs", spd, unplace(b1, n, nrhs, ldb), b, n)
+					anorm := norm1(spd)
+					c1 := lapack64.Pocon(blas64.Symmetric{N: n, Stride: ld, Data: a1.d, Uplo: uplo}, anorm, make([]float64, 3*n), make([]int, n))
+					if inv, iok := inverse(spd); iok {
+						condCheck(ck, "Pocon", c1, anorm, norm1(inv))
 					}
-					sy, ok1 := lapack64.Potri(tr)
-					ok2 = impl.Dpotri(uplo, n, a2, ld)
-					sameBits(ck, "Potri", a1, a2)
-					if ok1 != ok2 || sy.Uplo != uplo || sy.N != n {
-						ck.failf("Potri: returned %v ok=%v", sy.Uplo, ok1)
+					sy, okI := lapack64.Potri(tr)
+					if !okI || sy.Uplo != uplo || sy.N != n || sy.Stride != ld {
+						ck.failf("Potri: returned symmetric uplo=%v n=%d ok=%v", sy.Uplo, sy.N, okI)
 					}
-					a1, a2 = gen(spd), gen(spd)
-					p1, p2 := make([]int, n), make([]int, n)
-					_, r1, ok1 := lapack64.Pstrf(blas64.Symmetric{N: n, Stride: ld, Data: a1, Uplo: uplo}, p1, -1, make([]float64, 2*n))
-					r2, ok2 := impl.Dpstrf(uplo, n, a2, ld, p2, -1, make([]float64, 2*n))
-					sameBits(ck, "Pstrf", a1, a2)
-					if r1 != r2 || ok1 != ok2 || !intsSame(p1, p2) {
-						ck.failf("Pstrf: rank/ok/piv differ")
+					invResid(ck, "Potri", spd, symOf(a1.getRef(), uplo))
+					if i, intact := a1.poisonIntact(); !intact {
+						ck.failf("Potrf/Potri wrote the other triangle at offset %d", i)
 					}
-					// band: Pbtrf / Pbtrs / Pbcon / Lansb / Lantb / Tbtrs
-					kd := imin(2, n-1)
-					bs := genBandSPD(n, kd)
-					s1 := placeBand(bs, uplo, kd, kd+1+pad, false)
-					s2 := placeBand(bs, uplo, kd, kd+1+pad, false)
-					sb := blas64.SymmetricBand{N: n, K: kd, Stride: kd + 1 + pad, Data: s1.d, Uplo: uplo}
+					// Pstrf
+					a1 = place(spd, ld, keepUplo(uplo))
+					piv := make([]int, n)
+					tp, rank, okP := lapack64.Pstrf(blas64.Symmetric{N: n, Stride: ld, Data: a1.d, Uplo: uplo}, piv, -1, make([]float64, 2*n))
+					if tp.Uplo != uplo || tp.N != n || tp.Stride != ld {
+						ck.failf("Pstrf: returned triangular uplo=%v n=%d", tp.Uplo, tp.N)
+					}
+					pstOracle(ck, "Pstrf", uplo, spd, pstRun{fac: a1.getRef(), piv: piv, rank: rank, ok: okP}, -1, "pd", -1, false)
 					for _, nrm := range normKinds {
-						if v1, v2 := lapack64.Lansb(nrm, sb, make([]float64, n)), impl.Dlansb(nrm, uplo, n, kd, s2.d, kd+1+pad, make([]float64, n)); v1 != v2 {
-							ck.failf("Lansb %s: %v vs %v", normName(nrm), v1, v2)
-						}
+						as := place(spd, ld, keepUplo(uplo))
+						normCheck(ck, "Lansy", nrm, lapack64.Lansy(nrm, blas64.Symmetric{N: n, Stride: ld, Data: as.d, Uplo: uplo}, make([]float64, n)), spd)
+					}
+				}
+				t.Outcome("spd")
+			})
+
+			// ---- symmetric band and triangular band: Pbtrf, Pbtrs, Pbcon, Lansb, Lantb, Tbtrs
+			g.Case(fmt.Sprintf("lapack64 band n=%d ld+%d", n, pad), func(t *vlib.T) {
+				ck := &checker{t: t}
+				t.Nontrivial()
+				kd := imin(2, n-1)
+				ldab := kd + 1 + pad
+				bs := genBandSPD(n, kd)
+				for _, uplo := range uplos {
+					ck.ctx = "uplo=" + uploName(uplo)
+					s1 := placeBand(bs, uplo, kd, ldab, false)
+					s2 := placeBand(bs, uplo, kd, ldab, false)
+					sb := blas64.SymmetricBand{N: n, K: kd, Stride: ldab, Data: s1.d, Uplo: uplo}
+					for _, nrm := range normKinds {
+						normCheck(ck, "Lansb", nrm, lapack64.Lansb(nrm, sb, make([]float64, n)), bs)
 					}
 					tb, ok1 := lapack64.Pbtrf(sb)
-					ok2 = impl.Dpbtrf(uplo, n, kd, s2.d, kd+1+pad)
+					ok2 := impl.Dpbtrf(uplo, n, kd, s2.d, ldab)
 					sameBits(ck, "Pbtrf", s1.d, s2.d)
-					if ok1 != ok2 || tb.K != kd || tb.N != n || tb.Uplo != uplo || tb.Stride != kd+1+pad {
-						ck.failf("Pbtrf: returned band %+v", tb.K)
+					if ok1 != ok2 || tb.K != kd || tb.N != n || tb.Uplo != uplo || tb.Stride != ldab || tb.Diag != blas.NonUnit {
+						ck.failf("Pbtrf: returned band n=%d k=%d uplo=%v", tb.N, tb.K, tb.Uplo)
 					}
-					b1, b2 = bd(), bd()
+					bandCholOracle(ck, "Pbtrf", uplo, bs, pbRun{fac: s1.tri(), ok: ok1}, bfam{name: "bspd", pd: true})
+					b, b1 := rhs(bs)
 					lapack64.Pbtrs(tb, general(b1, n, nrhs, ldb))
-					impl.Dpbtrs(uplo, n, kd, nrhs, s2.d, kd+1+pad, b2, ldb)
-					sameBits(ck, "Pbtrs", b1, b2)
-					if v1, v2 := lapack64.Pbcon(sb, 10, make([]float64, 3*n), make([]int, n)), impl.Dpbcon(uplo, n, kd, s2.d, kd+1+pad, 10, make([]float64, 3*n), make([]int, n)); v1 != v2 {
-						ck.failf("Pbcon: %v vs %v", v1, v2)
+					solveResid(ck, "Pbtrs", bs, unplace(b1, n, nrhs, ldb), b, n)
+					anorm := norm1(bs)
+					rc := lapack64.Pbcon(sb, anorm, make([]float64, 3*n), make([]int, n))
+					if inv, iok := inverse(bs); iok {
+						condCheck(ck, "Pbcon", rc, anorm, norm1(inv))
 					}
+					// triangular band matrices from a non-symmetric dense matrix
 					for _, diag := range diags {
-						tb.Diag = diag
+						tm := bandRestrict(triDense(dd, uplo, diag), kd)
+						ts := placeBand(tm, uplo, kd, ldab, diag == blas.Unit)
+						tbm := blas64.TriangularBand{N: n, K: kd, Stride: ldab, Data: ts.d, Uplo: uplo, Diag: diag}
 						for _, nrm := range normKinds {
-							if v1, v2 := lapack64.Lantb(nrm, tb, make([]float64, n)), impl.Dlantb(nrm, uplo, diag, n, kd, s2.d, kd+1+pad, make([]float64, n)); v1 != v2 && !(math.IsNaN(v1) && math.IsNaN(v2)) {
-								ck.failf("Lantb %s: %v vs %v", normName(nrm), v1, v2)
+							ck.ctx = fmt.Sprintf("uplo=%s diag=%s norm=%s", uploName(uplo), diagName(diag), normName(nrm))
+							normCheck(ck, "Lantb", nrm, lapack64.Lantb(nrm, tbm, make([]float64, n)), tm)
+						}
+						for _, trans := range allTrans {
+							ck.ctx = fmt.Sprintf("uplo=%s diag=%s trans=%s", uploName(uplo), diagName(diag), transName(trans))
+							op := opOf(tm, trans)
+							b, b1 := rhs(op)
+							if ok := lapack64.Tbtrs(trans, tbm, general(b1, n, nrhs, ldb)); !ok {
+								ck.failf("Tbtrs ok=false")
 							}
-						}
-						for _, trans := range transes {
-							b1, b2 = bd(), bd()
-							o1 := lapack64.Tbtrs(trans, tb, general(b1, n, nrhs, ldb))
-							o2 := impl.Dtbtrs(uplo, trans, diag, n, kd, nrhs, s2.d, kd+1+pad, b2, ldb)
-							sameBits(ck, "Tbtrs", b1, b2)
-							if o1 != o2 {
-								ck.failf("Tbtrs ok differs")
-							}
-						}
-						// dense triangular: Trtri / Trtrs / Trcon / Lantr
-						a1, a2 = gen(dd), gen(dd)
-						tri := blas64.Triangular{N: n, Stride: ld, Data: a1, Uplo: uplo, Diag: diag}
-						for _, nrm := range normKinds {
-							if v1, v2 := lapack64.Lantr(nrm, tri, make([]float64, n)), impl.Dlantr(nrm, uplo, diag, n, n, a2, ld, make([]float64, n)); v1 != v2 {
-								ck.failf("Lantr %s: %v vs %v", normName(nrm), v1, v2)
-							}
-						}
-						for _, nrm := range []lapack.MatrixNorm{lapack.MaxColumnSum, lapack.MaxRowSum} {
-							if v1, v2 := lapack64.Trcon(nrm, tri, make([]float64, 3*n), make([]int, n)), impl.Dtrcon(nrm, uplo, diag, n, a2, ld, make([]float64, 3*n), make([]int, n)); v1 != v2 {
-								ck.failf("Trcon: %v vs %v", v1, v2)
-							}
-						}
-						for _, trans := range transes {
-							b1, b2 = bd(), bd()
-							o1 := lapack64.Trtrs(trans, tri, general(b1, n, nrhs, ldb))
-							o2 := impl.Dtrtrs(uplo, trans, diag, n, nrhs, a2, ld, b2, ldb)
-							sameBits(ck, "Trtrs", b1, b2)
-							if o1 != o2 {
-								ck.failf("Trtrs ok differs")
-							}
-						}
-						o1 := lapack64.Trtri(tri)
-						o2 := impl.Dtrtri(uplo, diag, n, a2, ld)
-						sameBits(ck, "Trtri", a1, a2)
-						if o1 != o2 {
-							ck.failf("Trtri ok differs")
-						}
-					}
-					for _, nrm := range normKinds {
-						a1 = gen(spd)
-						if v1, v2 := lapack64.Lansy(nrm, blas64.Symmetric{N: n, Stride: ld, Data: a1, Uplo: uplo}, make([]float64, n)), impl.Dlansy(nrm, uplo, n, a1, ld, make([]float64, n)); v1 != v2 {
-							ck.failf("Lansy %s: %v vs %v", normName(nrm), v1, v2)
+							solveResid(ck, "Tbtrs", op, unplace(b1, n, nrhs, ldb), b, n)
+							ts.checkRO(ck, "Tbtrs a")
 						}
 					}
 				}
-				// LU: Getrf / Getrs / Getri / Gecon
+				t.Outcome("band")
+			})
+
+			// ---- dense triangular: Trtri, Trtrs, Trcon, Lantr
+			g.Case(fmt.Sprintf("lapack64 tri n=%d ld+%d", n, pad), func(t *vlib.T) {
+				ck := &checker{t: t}
+				t.Nontrivial()
+				for _, uplo := range uplos {
+					for _, diag := range diags {
+						tm := triDense(dd, uplo, diag)
+						as := place(dd, ld, keepTri(uplo, diag))
+						tri := blas64.Triangular{N: n, Stride: ld, Data: as.d, Uplo: uplo, Diag: diag}
+						for _, nrm := range normKinds {
+							ck.ctx = fmt.Sprintf("uplo=%s diag=%s norm=%s", uploName(uplo), diagName(diag), normName(nrm))
+							normCheck(ck, "Lantr", nrm, lapack64.Lantr(nrm, tri, make([]float64, n)), tm)
+						}
+						inv, iok := inverse(tm)
+						for _, nrm := range []lapack.MatrixNorm{lapack.MaxColumnSum, lapack.MaxRowSum} {
+							ck.ctx = fmt.Sprintf("uplo=%s diag=%s norm=%s", uploName(uplo), diagName(diag), normName(nrm))
+							rc := lapack64.Trcon(nrm, tri, make([]float64, 3*n), make([]int, n))
+							if iok {
+								if nrm == lapack.MaxRowSum {
+									condCheck(ck, "Trcon-inf", rc, normInf(tm), normInf(inv))
+								} else {
+									condCheck(ck, "Trcon-1", rc, norm1(tm), norm1(inv))
+								}
+							}
+						}
+						for _, trans := range allTrans {
+							ck.ctx = fmt.Sprintf("uplo=%s diag=%s trans=%s", uploName(uplo), diagName(diag), transName(trans))
+							op := opOf(tm, trans)
+							b, b1 := rhs(op)
+							if ok := lapack64.Trtrs(trans, tri, general(b1, n, nrhs, ldb)); !ok {
+								ck.failf("Trtrs ok=false")
+							}
+							solveResid(ck, "Trtrs", op, unplace(b1, n, nrhs, ldb), b, n)
+						}
+						as.checkRO(ck, "Lantr/Trcon/Trtrs a")
+						ck.ctx = fmt.Sprintf("uplo=%s diag=%s", uploName(uplo), diagName(diag))
+						if ok := lapack64.Trtri(tri); !ok {
+							ck.failf("Trtri ok=false")
+						}
+						if i, intact := as.poisonIntact(); !intact {
+							ck.failf("Trtri wrote unreferenced storage at offset %d", i)
+						}
+						invResid(ck, "Trtri", tm, triDense(as.getRef(), uplo, diag))
+					}
+				}
+				t.Outcome("tri")
+			})
+
+			// ---- LU: Getrf, Getrs, Getri, Gecon
+			g.Case(fmt.Sprintf("lapack64 lu n=%d ld+%d", n, pad), func(t *vlib.T) {
+				ck := &checker{t: t}
+				t.Nontrivial()
 				a1, a2 := gen(dd), gen(dd)
 				p1, p2 := make([]int, n), make([]int, n)
 				o1 := lapack64.Getrf(general(a1, n, n, ld), p1)
 				o2 := impl.Dgetrf(n, n, a2, ld, p2)
 				sameBits(ck, "Getrf", a1, a2)
 				if o1 != o2 || !intsSame(p1, p2) {
-					ck.failf("Getrf ok/ipiv differ")
+					ck.failf("Getrf ok/ipiv differ from the direct call")
 				}
-				for _, trans := range transes {
-					b1, b2 := bd(), bd()
+				luOracle(ck, "Getrf", dd, unplace(a1, n, n, ld), p1, o1, 0)
+				for _, trans := range allTrans {
+					ck.ctx = "trans=" + transName(trans)
+					op := opOf(dd, trans)
+					b, b1 := rhs(op)
 					lapack64.Getrs(trans, general(a1, n, n, ld), general(b1, n, nrhs, ldb), p1)
-					impl.Dgetrs(trans, n, nrhs, a2, ld, p2, b2, ldb)
-					sameBits(ck, "Getrs", b1, b2)
+					solveResid(ck, "Getrs", op, unplace(b1, n, nrhs, ldb), b, n)
 				}
+				inv, iok := inverse(dd)
 				for _, nrm := range []lapack.MatrixNorm{lapack.MaxColumnSum, lapack.MaxRowSum} {
-					if v1, v2 := lapack64.Gecon(nrm, general(a1, n, n, ld), 10, make([]float64, 4*n), make([]int, n)), impl.Dgecon(nrm, n, a2, ld, 10, make([]float64, 4*n), make([]int, n)); v1 != v2 {
-						ck.failf("Gecon: %v vs %v", v1, v2)
+					ck.ctx = "norm=" + normName(nrm)
+					anorm, ainv := norm1(dd), norm1(inv)
+					name := "Gecon-1"
+					if nrm == lapack.MaxRowSum {
+						anorm, ainv, name = normInf(dd), normInf(inv), "Gecon-inf"
+					}
+					rc := lapack64.Gecon(nrm, general(a1, n, n, ld), anorm, make([]float64, 4*n), make([]int, n))
+					if iok {
+						condCheck(ck, name, rc, anorm, ainv)
 					}
 				}
-				w1, w2 := make([]float64, 64*n), make([]float64, 64*n)
-				o1 = lapack64.Getri(general(a1, n, n, ld), p1, w1, len(w1))
-				o2 = impl.Dgetri(n, a2, ld, p2, w2, len(w2))
-				sameBits(ck, "Getri", a1, a2)
-				if o1 != o2 {
-					ck.failf("Getri ok differs")
+				ck.ctx = ""
+				w1 := make([]float64, 64*n)
+				if ok := lapack64.Getri(general(a1, n, n, ld), p1, w1, len(w1)); !ok {
+					ck.failf("Getri ok=false")
 				}
-				// rectangular: Geqrf / Orgqr / Ormqr / Gelqf / Orglq / Ormlq / Geqp3 / Gels / Lange / Lapmt / Lapmr
+				invResid(ck, "Getri", dd, unplace(a1, n, n, ld))
+				t.Outcome("lu")
+			})
+
+			// ---- orthogonal factorizations and least squares
+			g.Case(fmt.Sprintf("lapack64 qr n=%d ld+%d", n, pad), func(t *vlib.T) {
+				ck := &checker{t: t}
+				t.Nontrivial()
 				m := n + 2
-				rect := genDD(1)(m, n)
 				lw := 4096 + 64*(m+n)
-				a1, a2 = gen(rect), gen(rect)
-				t1, t2 := make([]float64, n), make([]float64, n)
-				lapack64.Geqrf(general(a1, m, n, ld), t1, make([]float64, lw), lw)
-				impl.Dgeqrf(m, n, a2, ld, t2, make([]float64, lw), lw)
-				sameBits(ck, "Geqrf", a1, a2)
-				sameBits(ck, "Geqrf tau", t1, t2)
-				for _, side := range sides {
-					for _, trans := range transes {
-						cm, cn := m, 3
-						if side == blas.Right {
-							cm, cn = 3, m
-						}
-						c := genDD(2)(cm, cn)
-						c1, c2 := place(c, cn+pad, nil).d, place(c, cn+pad, nil).d
-						lapack64.Ormqr(side, trans, general(a1, m, n, ld), t1, general(c1, cm, cn, cn+pad), make([]float64, lw), lw)
-						impl.Dormqr(side, trans, cm, cn, n, a2, ld, t2, c2, cn+pad, make([]float64, lw), lw)
-						sameBits(ck, "Ormqr", c1, c2)
-					}
-				}
-				lapack64.Orgqr(general(a1, m, n, ld), t1, make([]float64, lw), lw)
-				impl.Dorgqr(m, n, n, a2, ld, t2, make([]float64, lw), lw)
-				sameBits(ck, "Orgqr", a1, a2)
+				tall := genDD(1)(m, n)
 				wide := genDD(1)(n, m)
 				ldw := m + pad
-				a1, a2 = place(wide, ldw, nil).d, place(wide, ldw, nil).d
-				lapack64.Gelqf(general(a1, n, m, ldw), t1, make([]float64, lw), lw)
-				impl.Dgelqf(n, m, a2, ldw, t2, make([]float64, lw), lw)
-				sameBits(ck, "Gelqf", a1, a2)
-				for _, side := range sides {
-					for _, trans := range transes {
-						cm, cn := m, 3
-						if side == blas.Right {
-							cm, cn = 3, m
+				type fac struct {
+					kd      fkind
+					a       M
+					r, c    int
+					ld      int
+					factor  func(a blas64.General, tau, work []float64, lwork int)
+					orm     func(side blas.Side, trans blas.Transpose, a blas64.General, tau []float64, c blas64.General, work []float64, lwork int)
+					org     func(a blas64.General, tau, work []float64, lwork int)
+					orgK    okind
+					nameOrm string
+				}
+				for _, f := range []fac{
+					{kindQR, tall, m, n, ld, lapack64.Geqrf, lapack64.Ormqr, func(a blas64.General, tau, work []float64, lwork int) { lapack64.Orgqr(a, tau, work, lwork) }, orgQR, "Ormqr"},
+					{kindLQ, wide, n, m, ldw, lapack64.Gelqf, lapack64.Ormlq, lapack64.Orglq, orgLQ, "Ormlq"},
+				} {
+					a1 := place(f.a, f.ld, nil).d
+					tau := make([]float64, n)
+					f.factor(general(a1, f.r, f.c, f.ld), tau, make([]float64, lw), lw)
+					out := unplace(a1, f.r, f.c, f.ld)
+					ck.ctx = f.kd.name
+					factorOracle(ck, f.kd, f.kd.name, f.a, facRun{out: out, tau: tau})
+					rf := f.kd.refl(out, tau)
+					q := qOf(rf, f.kd.asc)
+					dim := float64(rf.dim)
+					for _, side := range sides {
+						for _, trans := range transes { // ConjTrans is not accepted by Dormqr/Dormlq
+							ck.ctx = fmt.Sprintf("%s side=%s trans=%s", f.nameOrm, sideName(side), transName(trans))
+							cm, cn := rf.dim, 3
+							if side == blas.Right {
+								cm, cn = 3, rf.dim
+							}
+							c := genDD(2)(cm, cn)
+							c1 := place(c, cn+pad, nil).d
+							f.orm(side, trans, general(a1, f.r, f.c, f.ld), tau, general(c1, cm, cn, cn+pad), make([]float64, lw), lw)
+							qop := q
+							if trans == blas.Trans {
+								qop = q.T()
+							}
+							var want M
+							if side == blas.Left {
+								want = mul(qop, c)
+							} else {
+								want = mul(c, qop)
+							}
+							ck.ratio("orm |C-QC|/(n eps |C|)", norm1(sub(unplace(c1, cm, cn, cn+pad), want))/(dim*eps*math.Max(1, norm1(c))))
 						}
-						c := genDD(2)(cm, cn)
-						c1, c2 := place(c, cn+pad, nil).d, place(c, cn+pad, nil).d
-						lapack64.Ormlq(side, trans, general(a1, n, m, ldw), t1, general(c1, cm, cn, cn+pad), make([]float64, lw), lw)
-						impl.Dormlq(side, trans, cm, cn, n, a2, ldw, t2, c2, cn+pad, make([]float64, lw), lw)
-						sameBits(ck, "Ormlq", c1, c2)
+					}
+					ck.ctx = f.orgK.name
+					_, _, want := orgInput(f.orgK, rf, f.r, f.c, n)
+					f.org(general(a1, f.r, f.c, f.ld), tau, make([]float64, lw), lw)
+					ck.ratio("org |Q-Qref|/(n eps)", norm1(sub(unplace(a1, f.r, f.c, f.ld), want))/(dim*eps))
+				}
+				// Geqp3
+				ck.ctx = "Geqp3"
+				a1 := place(tall, ld, nil).d
+				jp := make([]int, n)
+				for j := range jp {
+					jp[j] = -1
+				}
+				jp0 := append([]int(nil), jp...)
+				tau := make([]float64, n)
+				work := make([]float64, lw)
+				lapack64.Geqp3(general(a1, m, n, ld), jp, tau, work, lw)
+				qp3Oracle(ck, "Geqp3", tall, jp0, qp3Run{out: unplace(a1, m, n, ld), tau: tau, jpvt: jp, w0: work[0]})
+				// Gels: every trans, tall and wide
+				for _, a := range []M{tall, wide} {
+					for _, trans := range allTrans {
+						ck.ctx = fmt.Sprintf("Gels %dx%d trans=%s", a.r, a.c, transName(trans))
+						op := opOf(a, trans)
+						bb := newM(imax(a.r, a.c), nrhs)
+						for i := 0; i < op.r; i++ {
+							for j := 0; j < nrhs; j++ {
+								bb.a[i*nrhs+j] = float64(h3(i, j, 61) + 1)
+							}
+						}
+						lda := a.c + pad
+						a1 := place(a, lda, nil).d
+						b1 := place(bb, ldb, nil).d
+						if ok := lapack64.Gels(trans, general(a1, a.r, a.c, lda), general(b1, bb.r, nrhs, ldb), make([]float64, lw), lw); !ok {
+							ck.failf("Gels ok=false")
+							continue
+						}
+						gelsOracle(ck, "Gels", op, bb.slice(0, op.r, 0, nrhs), unplace(b1, op.c, nrhs, ldb), true)
 					}
 				}
-				lapack64.Orglq(general(a1, n, m, ldw), t1, make([]float64, lw), lw)
-				impl.Dorglq(n, m, n, a2, ldw, t2, make([]float64, lw), lw)
-				sameBits(ck, "Orglq", a1, a2)
-				a1, a2 = gen(rect), gen(rect)
-				j1, j2 := make([]int, n), make([]int, n)
-				for j := range j1 {
-					j1[j], j2[j] = -1, -1
+				t.Outcome("qr")
+			})
+
+			// ---- norms of general and band matrices, permutations
+			g.Case(fmt.Sprintf("lapack64 norms+perm n=%d ld+%d", n, pad), func(t *vlib.T) {
+				ck := &checker{t: t}
+				t.Nontrivial()
+				m := n + 2
+				rect := genDD(1)(m, n)
+				for _, nrm := range normKinds {
+					ck.ctx = "norm=" + normName(nrm)
+					as := place(rect, ld, nil)
+					normCheck(ck, "Lange", nrm, lapack64.Lange(nrm, general(as.d, m, n, ld), make([]float64, n)), rect)
 				}
-				lapack64.Geqp3(general(a1, m, n, ld), j1, t1, make([]float64, lw), lw)
-				impl.Dgeqp3(m, n, a2, ld, j2, t2, make([]float64, lw), lw)
-				sameBits(ck, "Geqp3", a1, a2)
-				if !intsSame(j1, j2) {
-					ck.failf("Geqp3 jpvt differs")
+				kl, ku := imin(1, n-1), imin(2, n-1)
+				ldab := kl + ku + 1 + pad
+				gb := make([]float64, m*ldab)
+				dense := newM(m, n)
+				for i := range gb {
+					gb[i] = vlib.Poison64(0x500 + i)
 				}
-				for _, trans := range transes {
-					a1, a2 = gen(rect), gen(rect)
-					bb := genDD(3)(m, nrhs)
-					b1, b2 := place(bb, ldb, nil).d, place(bb, ldb, nil).d
-					o1 := lapack64.Gels(trans, general(a1, m, n, ld), general(b1, m, nrhs, ldb), make([]float64, lw), lw)
-					o2 := impl.Dgels(trans, m, n, nrhs, a2, ld, b2, ldb, make([]float64, lw), lw)
-					sameBits(ck, "Gels", b1, b2)
-					if o1 != o2 {
-						ck.failf("Gels ok differs")
+				for i := 0; i < imin(m, n+kl); i++ {
+					for j := imax(0, i-kl); j <= imin(n-1, i+ku); j++ {
+						gb[i*ldab+kl+j-i] = rect.at(i, j)
+						dense.a[i*n+j] = rect.at(i, j)
 					}
 				}
 				for _, nrm := range normKinds {
-					a1 = gen(rect)
-					if v1, v2 := lapack64.Lange(nrm, general(a1, m, n, ld), make([]float64, n)), impl.Dlange(nrm, m, n, a1, ld, make([]float64, n)); v1 != v2 {
-						ck.failf("Lange: %v vs %v", v1, v2)
-					}
+					ck.ctx = "norm=" + normName(nrm)
+					normCheck(ck, "Langb", nrm, lapack64.Langb(nrm, blas64.Band{Rows: m, Cols: n, KL: kl, KU: ku, Stride: ldab, Data: gb}), dense)
 				}
 				for _, fwd := range []bool{true, false} {
-					a1, a2 = gen(rect), gen(rect)
-					k1 := make([]int, n)
-					for i := range k1 {
-						k1[i] = (i + 1) % n
+					ck.ctx = fmt.Sprintf("forward=%v", fwd)
+					x := labelM(m, n)
+					kc := make([]int, n)
+					for i := range kc {
+						kc[i] = (i + 1) % n
 					}
-					lapack64.Lapmt(fwd, general(a1, m, n, ld), append([]int(nil), k1...))
-					impl.Dlapmt(fwd, m, n, a2, ld, append([]int(nil), k1...))
-					sameBits(ck, "Lapmt", a1, a2)
-					a1, a2 = gen(rect), gen(rect)
 					kr := make([]int, m)
 					for i := range kr {
 						kr[i] = (i + 2) % m
 					}
+					wantC, wantR := newM(m, n), newM(m, n)
+					for i := 0; i < m; i++ {
+						for j := 0; j < n; j++ {
+							if fwd {
+								wantC.a[i*n+j] = x.at(i, kc[j])
+								wantR.a[i*n+j] = x.at(kr[i], j)
+							} else {
+								wantC.a[i*n+kc[j]] = x.at(i, j)
+								wantR.a[kr[i]*n+j] = x.at(i, j)
+							}
+						}
+					}
+					a1 := gen(x)
+					lapack64.Lapmt(fwd, general(a1, m, n, ld), append([]int(nil), kc...))
+					if i, same := exactEq(unplace(a1, m, n, ld), wantC); !same {
+						ck.failf("Lapmt: element %d wrong", i)
+					}
+					a1 = gen(x)
 					lapack64.Lapmr(fwd, general(a1, m, n, ld), append([]int(nil), kr...))
-					impl.Dlapmr(fwd, m, n, a2, ld, append([]int(nil), kr...))
-					sameBits(ck, "Lapmr", a1, a2)
-				}
-				// tridiagonal: Gtsv (trans swaps dl and du), Langt
-				dl, d, du := gtFams(n)[0].gen(n)
-				for _, trans := range transes {
-					b1, b2 := bd(), bd()
-					l1, d1, u1 := append([]float64(nil), dl...), append([]float64(nil), d...), append([]float64(nil), du...)
-					l2, d2, u2 := append([]float64(nil), dl...), append([]float64(nil), d...), append([]float64(nil), du...)
-					o1 := lapack64.Gtsv(trans, lapack64.Tridiagonal{N: n, DL: l1, D: d1, DU: u1}, general(b1, n, nrhs, ldb))
-					var o2 bool
-					if trans == blas.NoTrans {
-						o2 = impl.Dgtsv(n, nrhs, l2, d2, u2, b2, ldb)
-					} else {
-						o2 = impl.Dgtsv(n, nrhs, u2, d2, l2, b2, ldb)
-					}
-					sameBits(ck, "Gtsv", b1, b2)
-					if o1 != o2 {
-						ck.failf("Gtsv ok differs")
+					if i, same := exactEq(unplace(a1, m, n, ld), wantR); !same {
+						ck.failf("Lapmr: element %d wrong", i)
 					}
 				}
-				for _, nrm := range normKinds {
-					if v1, v2 := lapack64.Langt(nrm, lapack64.Tridiagonal{N: n, DL: dl, D: d, DU: du}), impl.Dlangt(nrm, n, dl, d, du); v1 != v2 {
-						ck.failf("Langt: %v vs %v", v1, v2)
-					}
-				}
-				kl, ku := imin(1, n-1), imin(2, n-1)
-				gb := make([]float64, m*(kl+ku+1+pad))
-				for i := range gb {
-					gb[i] = float64(i%5 - 2)
-				}
-				for _, nrm := range normKinds {
-					if v1, v2 := lapack64.Langb(nrm, blas64.Band{Rows: m, Cols: n, KL: kl, KU: ku, Stride: kl + ku + 1 + pad, Data: gb}), impl.Dlangb(nrm, m, n, kl, ku, gb, kl+ku+1+pad); v1 != v2 {
-						ck.failf("Langb: %v vs %v", v1, v2)
-					}
-				}
-				t.Outcome("wrappers")
+				t.Outcome("norms+perm")
 			})
+
+			// ---- tridiagonal with DL != DU: Gtsv, Lagtm, Langt for every trans
+			for _, fam := range []string{"dd", "pivoting"} {
+				fam := fam
+				g.Case(fmt.Sprintf("lapack64 tridiag n=%d ld+%d fam=%s", n, pad, fam), func(t *vlib.T) {
+					ck := &checker{t: t}
+					t.Nontrivial()
+					var dl, d, du []float64
+					for _, f := range gtFams(n) {
+						if f.name == fam {
+							dl, d, du = f.gen(n)
+						}
+					}
+					for i := range dl {
+						if dl[i] == du[i] {
+							du[i] += 2 // the transposed system must differ from the original one
+						}
+					}
+					a := tridiagDense(dl, d, du)
+					for _, nrm := range normKinds {
+						ck.ctx = "norm=" + normName(nrm)
+						normCheck(ck, "Langt", nrm, lapack64.Langt(nrm, lapack64.Tridiagonal{N: n, DL: dl, D: d, DU: du}), a)
+					}
+					for _, trans := range allTrans {
+						ck.ctx = "trans=" + transName(trans)
+						op := opOf(a, trans)
+						b, b1 := rhs(op)
+						l1, d1, u1 := append([]float64(nil), dl...), append([]float64(nil), d...), append([]float64(nil), du...)
+						ok := lapack64.Gtsv(trans, lapack64.Tridiagonal{N: n, DL: l1, D: d1, DU: u1}, general(b1, n, nrhs, ldb))
+						if !ok {
+							if fam == "dd" {
+								ck.failf("Gtsv ok=false on a diagonally dominant matrix")
+							}
+							continue
+						}
+						solveResid(ck, "Gtsv", op, unplace(b1, n, nrhs, ldb), b, n)
+						// Lagtm: C = alpha*op(A)*B + beta*C, exact on integers
+						for _, alpha := range []float64{0, 1, -1} {
+							for _, beta := range []float64{0, 1, -1} {
+								bm := genDD(4)(n, nrhs)
+								cm := genDD(5)(n, nrhs)
+								want := mul(op, bm)
+								for i := range want.a {
+									want.a[i] = alpha*want.a[i] + beta*cm.a[i]
+								}
+								bs := place(bm, ldb, nil)
+								cs := place(cm, ldb, nil)
+								lapack64.Lagtm(trans, alpha, lapack64.Tridiagonal{N: n, DL: dl, D: d, DU: du}, general(bs.d, n, nrhs, ldb), beta, general(cs.d, n, nrhs, ldb))
+								bs.checkRO(ck, "Lagtm b")
+								if i, same := exactEq(cs.get(), want); !same {
+									ck.failf("Lagtm alpha=%v beta=%v: C[%d]=%v want %v (exact integer data)", alpha, beta, i, cs.get().a[i], want.a[i])
+								}
+							}
+						}
+					}
+					t.Outcome("tridiag/" + fam)
+				})
+			}
 		}
 	}
 }
